@@ -72,6 +72,7 @@ def main():
     # table
     lines = ["| Seeded change | What it does (needs) | Check | Result |", "|---|---|---|---|"]
     n_caught = 0
+    other = []
     for m in rows:
         res = m["drill"]["results"]
         if not res:
@@ -91,12 +92,15 @@ def main():
                     parts.append(f"{p}: harness exit {r['exit']}")
             cell = "; ".join(parts)
             n_caught += ok
+            own = res.get(m["id"].split("-")[0])
+            if ok and not (own and own["exit"] == 1):
+                other.append(m["id"])
         summ = (m["summary"] or "").replace("|", "/").replace("\n", " ")
         if len(summ) > 230:
             summ = summ[:230] + "..."
         lines.append(f"| {m['id']} | {summ} | {chk} | {cell} |")
     lines.append("")
-    lines.append(f"{n_caught} of {len(rows)} kept changes are caught by the quick tier of the owning check.")
+    lines.append(f"{n_caught} of {len(rows)} kept changes are caught by the quick tier: {n_caught - len(other)} by the check of the property they were written against, {len(other)} by the check that owns the mechanism ({', '.join(other)}; see the text below).")
     table = "\n".join(lines)
     open(os.path.join(VERIF, "seeded", "TABLE.md"), "w").write(table + "\n")
     print(table[-400:])
